@@ -103,7 +103,8 @@ type DeployCfg struct {
 	PickFixed    []uint16          `json:"pickFixed,omitempty"` // silent mode: members returned for every topic (truncated to the expected count)
 	PSMsgLen     int               `json:"psMsgLen,omitempty"`
 	PickDelayMs  int               `json:"pickDelayMs,omitempty"` // silent mode: the member selection callback takes this long on the simulated clock
-	QuietLog     bool              `json:"quietLog,omitempty"`    // the logger touches no shared memory (race-detector runs)
+	QuietLog     bool              `json:"quietLog,omitempty"`    // the logger touches no shared memory and lingers at some sites (concurrent-dispatch runs)
+	QuietRec     bool              `json:"quietRec,omitempty"`    // neither do recorder and proxies (race-detector runs, whose verdict is the detector's)
 }
 
 type Deployment struct {
@@ -161,7 +162,7 @@ func NewDeployment(w *netsim.World, cfg DeployCfg) *Deployment {
 		KG: map[uint16][]*scripted.Backend{}, SG: map[uint16][]*scripted.Backend{}, BLS: map[uint16][]*bls.TBLS{}}
 	d.Log.Quiet = cfg.QuietLog
 	d.Log.Salt = w.Seed
-	d.Rec = &scripted.Recorder{StepFn: func() int64 { return w.StepA() }, Quiet: cfg.QuietLog}
+	d.Rec = &scripted.Recorder{StepFn: func() int64 { return w.StepA() }, Quiet: cfg.QuietRec}
 	if cfg.PIDs == nil {
 		d.Cfg.PIDs = identityPIDs(cfg.IDs)
 	}
